@@ -34,27 +34,37 @@ def op_tok(op):
     return "A"
 
 
-def run_impl(raw, ops, psize):
-    """returns list of outputs: ('s', bytes) | ('k', idx) | ('e', kind)"""
+def run_impl(raw, ops, psize, read_evlrs=True):
+    """returns list of outputs: ('s', bytes) | ('k', idx) | ('e', kind). The records returned by EVERY call are kept alive and
+    looked at again after the whole history (a later read must not overwrite an earlier result)."""
     import laspy
     outs = []
     iters = {}
-    with laspy.open(io.BytesIO(raw)) as rd:
+    kept = []
+    with laspy.open(io.BytesIO(raw), read_evlrs=read_evlrs) as rd:
         for op in ops:
             try:
                 if op[0] == "R":
-                    outs.append(("s", bytes(rd.read_points(op[1]).memoryview())))
+                    r = rd.read_points(op[1])
+                    kept.append((len(outs), r))
+                    outs.append(("s", bytes(r.memoryview())))
                 elif op[0] == "N":
                     it = iters.get(op[1])
                     if it is None:
                         it = iters[op[1]] = rd.chunk_iterator(op[1])
-                    outs.append(("s", bytes(next(it).memoryview())))
+                    r = next(it)
+                    kept.append((len(outs), r))
+                    outs.append(("s", bytes(r.memoryview())))
                 elif op[0] == "S":
                     outs.append(("k", rd.seek(op[1], op[2])))
                 else:
                     outs.append(("s", bytes(rd.read().points.memoryview())))
             except Exception as ex:  # noqa
                 outs.append(("e", common.exc_kind(ex)))
+        for i, r in kept:
+            now = bytes(r.memoryview())
+            if now != outs[i][1]:
+                outs[i] = ("s", now + b"<changed-after-later-reads>")
     return outs
 
 
@@ -86,10 +96,25 @@ def spec_py(n, ops):
     return outs
 
 
+def empty_laz_flagged(rng):
+    """a 0-point LAS 1.4 file whose point-format byte carries the compressed bit and which holds a LasZip record and an EVLR:
+    laspy uses its null reader for it (no LAZ backend is needed), so every read returns an empty record"""
+    import laspy
+    h = lasio.rand_header(rng, version="1.4", nvlrs=0)
+    h.vlrs.append(laspy.VLR("laszip encoded", 22204, "http://laszip.org", bytes(34)))
+    evl = laspy.vlrs.vlrlist.VLRList([lasio.rand_vlr(rng, 40)])
+    raw = bytearray(lasio.write_las(h, laspy.PackedPointRecord.zeros(0, h.point_format), evl))
+    raw[104] |= 0x80
+    return bytes(raw), h
+
+
 def make_files(ctx):
     import laspy
     files = []
     rng = ctx.rng
+    for _ in range(2):
+        raw, h = empty_laz_flagged(rng)
+        files.append((raw, 0, h.point_format.size, b"", "1.4/empty-file-flagged-compressed/evlrs1"))
     for version in lasio.VERSIONS:
         for fmt in lasio.COMPAT[version]:
             if not ctx.thorough() and rng.random() < 0.55:
@@ -138,8 +163,9 @@ def histories(ctx):
     per = ctx.n(40, 300)
     cases = []
     for raw, n, ps, allpts, label in files:
-        for _ in range(per):
-            cases.append((raw, n, ps, allpts, label, gen_history(ctx.rng, n)))
+        for k in range(per):
+            # EVLRs loaded at opening or deferred to read(): the cursor behaves the same
+            cases.append((raw, n, ps, allpts, label + ("|evlrs-at-open" if k % 3 else "|evlrs-deferred"), gen_history(ctx.rng, n)))
     return cases
 
 
@@ -158,7 +184,7 @@ def correspond(ctx):
     dis = []
     for (raw, n, ps, allpts, label, ops), line in zip(_CASES, outs):
         model = parse_model(line)
-        impl = run_impl(raw, ops, ps)
+        impl = run_impl(raw, ops, ps, not label.endswith("deferred"))
         ctx.traces += 1
         nontriv = any(o[0] == "S" for o in ops)
         ctx.case((label, tuple(ops)), nontrivial=nontriv, sample={"file": label, "ops": [op_tok(o) for o in ops], "model": line})
@@ -173,7 +199,7 @@ def correspond(ctx):
     return dis
 
 
-def shrink(raw, n, ps, allpts, ops):
+def shrink(raw, n, ps, allpts, ops, re=True):
     """drop operations while the oracle still fails"""
     cur = list(ops)
     changed = True
@@ -181,7 +207,7 @@ def shrink(raw, n, ps, allpts, ops):
         changed = False
         for i in range(len(cur)):
             cand = cur[:i] + cur[i + 1:]
-            if cand and compare(spec_py(n, cand), run_impl(raw, cand, ps), allpts, ps) is not None:
+            if cand and compare(spec_py(n, cand), run_impl(raw, cand, ps, re), allpts, ps) is not None:
                 cur = cand
                 changed = True
                 break
@@ -194,17 +220,18 @@ def search(ctx, seeds):
     seen = set()
     for raw, n, ps, allpts, label, ops in cases:
         exp = spec_py(n, ops)
-        got = run_impl(raw, ops, ps)
+        re = not label.endswith("deferred")
+        got = run_impl(raw, ops, ps, re)
         bad = compare(exp, got, allpts, ps)
         if bad is not None:
-            small = shrink(raw, n, ps, allpts, ops)
-            b2 = compare(spec_py(n, small), run_impl(raw, small, ps), allpts, ps)
+            small = shrink(raw, n, ps, allpts, ops, re)
+            b2 = compare(spec_py(n, small), run_impl(raw, small, ps, re), allpts, ps)
             kind = f"cursor: {' '.join(op_tok(o)[0] for o in small)}"
             if kind in seen:
                 continue
             seen.add(kind)
             failing.append({"kind": kind, "input": {"file": label, "points": n, "ops": [op_tok(o) for o in small], "file_hex": raw.hex()},
-                            "observed": f"op #{b2} expected {spec_py(n, small)[b2]} got {got_short(run_impl(raw, small, ps)[b2], ps)}"})
+                            "observed": f"op #{b2} expected {spec_py(n, small)[b2]} got {got_short(run_impl(raw, small, ps, re)[b2], ps)}"})
             if len(failing) >= 5:
                 break
     return failing
